@@ -173,8 +173,9 @@ def sim_counts(r):
 
 def run(ctx):
     thorough = ctx.tier == "thorough"
-    selftest = os.environ.get("VERIF_C17_SELFTEST", "")
+    selftest = os.environ.get("VERIF_C17_SELFTEST", "")   # self-test of the binding only; never set in normal runs
     t0 = time.time()
+    ctx.overlay()                                          # (written once, before any thread uses it)
 
     # ------------------------------------------------------------------ U1 (design checks), in the background
     ring_cfgs = [("RingCheck_n1.cfg", "Nodes1", 7), ("RingCheck_n2.cfg", "Nodes2", 7)]
